@@ -319,19 +319,35 @@ def check_scrypt(ctx, P):
     ok = len(hn) == 1 and hn[0].res_ga == ["sha2::Sha256"] and cn(sf, hn[0].args[1]) == "arg1"
     ctx.check(ok, "scrypt-wire", "PRF = HMAC-SHA256(password)", "the PRF is HMAC-SHA-256 keyed with the password", "scrypt's PRF is not HMAC-SHA-256 keyed with the password", where=sf.where(), key="scrypt-wire:prf")
     # integerify: LE32 at len-64, & (n-1)
-    ig = P.fn("scrypt::scrypt_ro_mix::integerify")
-    e = ig.local_expr(0)
+    # ... in the private helper, or written out in scrypt_ro_mix where the index into V is computed
+    ig = P.fn_opt("scrypt::scrypt_ro_mix::integerify")
+    rmx = P.fn("scrypt::scrypt_ro_mix")
     ok = False
-    for x in walk(e):
-        if x[0] == "bin" and x[1] == "BitAnd":
-            sides = [x[2], x[3]]
-            m_ = [s for s in sides if pred.lin(s, ig) == ({"arg2": 1}, -1)]
-            r_ = [s for s in sides if any(y[0] == "call" and y[1] == "cryptoutil::read_u32_le" for y in walk(s))]
-            if m_ and r_:
-                for y in walk(r_[0]):
-                    if y[0] == "call" and y[1] == "cryptoutil::read_u32_le":
-                        w = rules.window(ig, y[2][0])
-                        ok = w is not None and w[0] == "arg1" and w[1] == ((("len(arg1)", 1),), -64) and w[2] == ((("len(arg1)", 1),), -60)
+    if ig is not None:
+        cands = [(ig, "arg1", "arg2", [ig.local_expr(0)])]
+        hc = rmx.calls_to(r"scrypt_ro_mix::integerify$")
+        wired = len(hc) == 1 and cn(rmx, hc[0].args[0]) == "arg1" and cn(rmx, hc[0].args[1]) == "arg4"
+    else:
+        # the index expressions of the window of V handed to xor
+        roots = []
+        for c in rmx.calls_to(r"^scrypt::xor$"):
+            roots.append(rmx.expr(c.args[1]))
+        cands = [(rmx, "arg1", "arg4", roots)]
+        wired = bool(roots)
+        ig = rmx
+    for f_, B_, N_, roots in cands:
+        for e in roots:
+            for x in walk(e):
+                if x[0] == "bin" and x[1] == "BitAnd":
+                    sides = [x[2], x[3]]
+                    m_ = [s_ for s_ in sides if pred.lin(s_, f_) == ({N_: 1}, -1)]
+                    r_ = [s_ for s_ in sides if any(y[0] == "call" and y[1] == "cryptoutil::read_u32_le" for y in walk(s_))]
+                    if m_ and r_:
+                        for y in walk(r_[0]):
+                            if y[0] == "call" and y[1] == "cryptoutil::read_u32_le":
+                                w = rules.window(f_, y[2][0])
+                                ok = wired and w is not None and w[0] == B_ and w[1] == ((("len(%s)" % B_, 1),), -64) and w[2] == ((("len(%s)" % B_, 1),), -60)
+    e = cands[0][3][0] if cands[0][3] else ("opaque", "no index expression")
     ctx.check(ok, "scrypt-integerify", "LE32(B[len-64..]) & (N-1)", "Integerify reads the first word of the last 64-byte block, masked with N-1", "integerify does not read LE32 at len-64 masked with n-1: %s" % fmt(e), where=ig.where(), key="scrypt-integerify")
 
 
